@@ -108,6 +108,9 @@ struct State {
     points: Vec<PointRec>,
     steps: usize,
     max_steps: usize,
+    /// delay bounding: every departure from the default (canonical) choice costs one unit, also at
+    /// points where the running thread has finished or blocked
+    delay: bool,
     trace_hash: u64,
     trace: Vec<String>,
     keep_trace: bool,
@@ -264,7 +267,8 @@ impl Exec {
         let next = if enabled.len() == 1 {
             enabled[0]
         } else {
-            let preempt: Vec<bool> = (0..enabled.len()).map(|i| me_en && i > 0).collect();
+            let delay = st.delay;
+            let preempt: Vec<bool> = (0..enabled.len()).map(|i| (me_en || delay) && i > 0).collect();
             let mut sig = 0xcbf29ce484222325u64;
             for &t in &enabled {
                 let (k, o) = {
@@ -832,6 +836,7 @@ pub struct RunCfg {
     pub prefix_sigs: Vec<u64>,
     pub max_steps: usize,
     pub keep_trace: bool,
+    pub delay: bool,
 }
 
 /// Record a panic message for the current execution (called by the panic hook).
@@ -878,6 +883,7 @@ pub fn run_one<V>(cfg: RunCfg, body: Box<dyn FnOnce() + Send + 'static>, judge: 
             points: vec![],
             steps: 0,
             max_steps: cfg.max_steps,
+            delay: cfg.delay,
             trace_hash: 0xcbf29ce484222325,
             trace: vec![],
             keep_trace: cfg.keep_trace,
